@@ -17,6 +17,45 @@ use jaq_json::Val;
 use jaq_std::input::RcIter;
 use std::collections::HashMap;
 
+// ------------------------------------------------------------------ watchdog
+// A change to jaq can make a bounded case diverge (e.g. `limit` pulling one item too many from
+// `1, 2, (def f: f; f)`).  Every case announces itself; a watchdog thread prints
+// `HANG\t<case>` and ends the process when one case runs longer than `HANG_SECS`.
+static CASE_NO: std::sync::atomic::AtomicU64 = std::sync::atomic::AtomicU64::new(0);
+static CASE_DESC: std::sync::Mutex<String> = std::sync::Mutex::new(String::new());
+const HANG_SECS: u64 = 240;
+
+fn begin_case(desc: &str) {
+    if let Ok(mut d) = CASE_DESC.lock() {
+        d.clear();
+        d.push_str(desc);
+    }
+    CASE_NO.fetch_add(1, std::sync::atomic::Ordering::SeqCst);
+}
+
+fn start_watchdog() {
+    std::thread::spawn(|| {
+        let mut last = u64::MAX;
+        let mut since = std::time::Instant::now();
+        loop {
+            std::thread::sleep(std::time::Duration::from_millis(500));
+            let cur = CASE_NO.load(std::sync::atomic::Ordering::SeqCst);
+            if cur != last {
+                last = cur;
+                since = std::time::Instant::now();
+            } else if cur != 0 && since.elapsed().as_secs() >= HANG_SECS {
+                use std::io::Write;
+                let d = CASE_DESC.lock().map(|d| d.clone()).unwrap_or_default();
+                let out = std::io::stdout();
+                let mut l = out.lock();
+                let _ = writeln!(l, "\nHANG\t{}", d.replace('\n', " "));
+                let _ = l.flush();
+                std::process::exit(0);
+            }
+        }
+    });
+}
+
 #[derive(Clone, Debug, PartialEq)]
 enum StopK {
     Done,
@@ -35,6 +74,12 @@ struct Outc {
 /// Run a filter; at most `max` values are pulled.  If `max` values arrived the run is cut
 /// there (`Fuel`) without pulling again.  Stops at the first non-value item.
 fn run_out(filter: &Filter, input: Val, vars: Vec<Val>, max: usize) -> Outc {
+    {
+        // heartbeat: keep the announced program text, add input and variables
+        let vs: Vec<String> = vars.iter().map(vx::enc).collect();
+        let prog = PROG.with(|p| p.borrow().clone());
+        begin_case(&format!("{prog}\tinput={} vars={}", vx::enc(&input), vs.join(",")));
+    }
     let r = catch(|| {
         let runner = Runner::default();
         let inputs: Box<dyn Iterator<Item = Result<Val, String>>> = Box::new(std::iter::empty());
@@ -64,6 +109,23 @@ fn run_out(filter: &Filter, input: Val, vars: Vec<Val>, max: usize) -> Outc {
         }
     });
     r.unwrap_or_else(|p| Outc { vals: vec![], stop: StopK::Err(tstr(format!("PANIC {p}").as_bytes())) })
+}
+
+thread_local! {
+    static PROG: std::cell::RefCell<String> = std::cell::RefCell::new(String::new());
+}
+
+/// compile and remember the program text for the watchdog
+fn compile_p(code: &str) -> Result<Filter, String> {
+    PROG.with(|p| *p.borrow_mut() = code.to_string());
+    compile(code)
+}
+fn compile_vars_p(code: &str, vars: &[String]) -> Result<Filter, String> {
+    PROG.with(|p| *p.borrow_mut() = code.to_string());
+    compile_vars(code, vars)
+}
+fn set_prog(code: &str) {
+    PROG.with(|p| *p.borrow_mut() = code.to_string());
 }
 
 fn is_math_err(v: &Val) -> bool {
@@ -108,7 +170,7 @@ fn thorough() -> bool {
 }
 
 fn parse_json(s: &str) -> Val {
-    let f = compile(s).expect("literal");
+    let f = compile_p(s).expect("literal");
     match run(&f, Val::Null, 2).into_iter().next() {
         Some(Item::Val(v)) => v,
         _ => panic!("literal {s}"),
@@ -198,16 +260,16 @@ fn nat_cases(rng: &mut Rng, id: &mut usize) {
     let vn = vec!["n".to_string()];
     for (k, (f, input)) in streams.iter().enumerate() {
         let input = parse_json(input);
-        let Ok(ff) = compile(f) else { println!("SKIP compile {f}"); continue };
-        let arg = run_out(&ff, input.clone(), vec![], 500);
+        let Ok(ff) = compile_p(f) else { println!("SKIP compile {f}"); continue };
+        set_prog(&f.to_string()); let arg = run_out(&ff, input.clone(), vec![], 500);
         if arg.stop == StopK::Fuel {
             continue;
         }
         let areq = enc_req(&arg);
         for op in ["first", "last", "isempty"] {
             let prog = format!("{op}({f})");
-            let Ok(p) = compile(&prog) else { println!("SKIP compile {prog}"); continue };
-            let real = run_out(&p, input.clone(), vec![], 1000);
+            let Ok(p) = compile_p(&prog) else { println!("SKIP compile {prog}"); continue };
+            set_prog(&prog); let real = run_out(&p, input.clone(), vec![], 1000);
             println!("nat{id}\tc11.nat {op} N {areq}\t{}\t{prog}\t{}", enc_ans(&real), vx::enc(&input));
             *id += 1;
         }
@@ -215,9 +277,9 @@ fn nat_cases(rng: &mut Rng, id: &mut usize) {
         let cs = counts(arg.vals.len(), rng, all);
         for op in ["limit", "skip", "nth"] {
             let prog = format!("{op}($n; {f})");
-            let Ok(p) = compile_vars(&prog, &vn) else { println!("SKIP compile {prog}"); continue };
+            let Ok(p) = compile_vars_p(&prog, &vn) else { println!("SKIP compile {prog}"); continue };
             for n in &cs {
-                let real = run_out(&p, input.clone(), vec![n.clone()], 1000);
+                set_prog(&prog); let real = run_out(&p, input.clone(), vec![n.clone()], 1000);
                 println!("nat{id}\tc11.nat {op} {} {areq}\t{}\t{prog}\t{} n={}", vx::enc(n), enc_ans(&real), vx::enc(&input), vx::enc(n));
                 *id += 1;
             }
@@ -233,25 +295,25 @@ fn nat_cases(rng: &mut Rng, id: &mut usize) {
     }
     for (f, input) in pstreams.iter() {
         let input = parse_json(input);
-        let Ok(ff) = compile(&format!("path({f})")) else { println!("SKIP compile path({f})"); continue };
-        let arg = run_out(&ff, input.clone(), vec![], 500);
+        let Ok(ff) = compile_p(&format!("path({f})")) else { println!("SKIP compile path({f})"); continue };
+        set_prog(&f.to_string()); let arg = run_out(&ff, input.clone(), vec![], 500);
         if arg.stop == StopK::Fuel {
             continue;
         }
         let areq = enc_req(&arg);
         for op in ["first", "last"] {
             let prog = format!("path({op}({f}))");
-            let Ok(p) = compile(&prog) else { println!("SKIP compile {prog}"); continue };
-            let real = run_out(&p, input.clone(), vec![], 1000);
+            let Ok(p) = compile_p(&prog) else { println!("SKIP compile {prog}"); continue };
+            set_prog(&prog); let real = run_out(&p, input.clone(), vec![], 1000);
             println!("natp{id}\tc11.nat {op} N {areq}\t{}\t{prog}\t{}", enc_ans(&real), vx::enc(&input));
             *id += 1;
         }
         let cs = counts(arg.vals.len(), rng, false);
         for op in ["limit", "skip"] {
             let prog = format!("path({op}($n; {f}))");
-            let Ok(p) = compile_vars(&prog, &vn) else { println!("SKIP compile {prog}"); continue };
+            let Ok(p) = compile_vars_p(&prog, &vn) else { println!("SKIP compile {prog}"); continue };
             for n in &cs {
-                let real = run_out(&p, input.clone(), vec![n.clone()], 1000);
+                set_prog(&prog); let real = run_out(&p, input.clone(), vec![n.clone()], 1000);
                 println!("natp{id}\tc11.nat {op} {} {areq}\t{}\t{prog}\t{} n={}", vx::enc(n), enc_ans(&real), vx::enc(&input), vx::enc(n));
                 *id += 1;
             }
@@ -260,26 +322,26 @@ fn nat_cases(rng: &mut Rng, id: &mut usize) {
     // infinite / divergent argument streams under small counts (bounded: model sees a `fuel` prefix)
     let inf = ["repeat(1)", "range(0;1;0)", "(1, 2, repeat(3))", "recurse(. + 1)", "(1, error(\"x\"), repeat(2))", "(def f: f; 1, 2, f)"];
     for f in inf {
-        let Ok(ff) = compile(f) else { println!("SKIP compile {f}"); continue };
+        let Ok(ff) = compile_p(f) else { println!("SKIP compile {f}"); continue };
         let cut = if f.contains("def f") { 2 } else { 40 };
-        let arg = run_out(&ff, int(0), vec![], cut);
+        set_prog(&f.to_string()); let arg = run_out(&ff, int(0), vec![], cut);
         let areq = enc_req(&arg);
         for op in ["limit", "nth"] {
             let prog = format!("{op}($n; {f})");
-            let Ok(p) = compile_vars(&prog, &vn) else { continue };
+            let Ok(p) = compile_vars_p(&prog, &vn) else { continue };
             for n in [-1isize, 0, 1, 2] {
                 if op == "nth" && n >= 2 && f.contains("def f") || op == "nth" && n < 0 && false {
                     continue;
                 }
-                let real = run_out(&p, int(0), vec![int(n)], 30);
+                set_prog(&prog); let real = run_out(&p, int(0), vec![int(n)], 30);
                 println!("nati{id}\tc11.nat {op} I{n} {areq}\t{}\t{prog}\tI0 n=I{n}", enc_ans(&real));
                 *id += 1;
             }
         }
         for op in ["first", "isempty"] {
             let prog = format!("{op}({f})");
-            let Ok(p) = compile(&prog) else { continue };
-            let real = run_out(&p, int(0), vec![], 30);
+            let Ok(p) = compile_p(&prog) else { continue };
+            set_prog(&prog); let real = run_out(&p, int(0), vec![], 30);
             println!("nati{id}\tc11.nat {op} N {areq}\t{}\t{prog}\tI0", enc_ans(&real));
             *id += 1;
         }
@@ -289,7 +351,7 @@ fn nat_cases(rng: &mut Rng, id: &mut usize) {
 // ------------------------------------------------------------------ range
 
 fn range_cases(rng: &mut Rng, id: &mut usize) {
-    let p = compile_vars("range($a; $b; $c)", &["a".to_string(), "b".to_string(), "c".to_string()]).expect("range");
+    let p = compile_vars_p("range($a; $b; $c)", &["a".to_string(), "b".to_string(), "c".to_string()]).expect("range");
     let mut pool: Vec<Val> = vec![];
     for i in [-3isize, -1, 0, 1, 2, 3, 5, 10] {
         pool.push(int(i));
@@ -299,7 +361,7 @@ fn range_cases(rng: &mut Rng, id: &mut usize) {
                  arr(vec![]), arr(vec![int(1)]), arr(vec![int(1), int(1), int(1)]), obj(vec![]), obj(vec![(tstr(b"a"), int(1))]), bstr(b"a")]);
     let fuel = 12usize;
     let emit = |a: &Val, b: &Val, c: &Val, id: &mut usize| {
-        let real = run_out(&p, Val::Null, vec![a.clone(), b.clone(), c.clone()], fuel);
+        set_prog("range($a; $b; $c)"); let real = run_out(&p, Val::Null, vec![a.clone(), b.clone(), c.clone()], fuel);
         println!("rng{id}\tc11.range {fuel} {} {} {}\t{}\trange($a;$b;$c)\t", vx::enc(a), vx::enc(b), vx::enc(c), enc_ans(&real));
         *id += 1;
     };
@@ -334,8 +396,8 @@ struct Tab {
 
 fn fold_cases(rng: &mut Rng, id: &mut usize) {
     let vx_ = vec!["x".to_string()];
-    let upds: Vec<(String, Filter)> = UPDS.iter().map(|u| (u.to_string(), compile_vars(u, &vx_).expect("upd"))).collect();
-    let projs: Vec<(String, Filter)> = PROJS.iter().map(|u| (u.to_string(), compile_vars(u, &vx_).expect("proj"))).collect();
+    let upds: Vec<(String, Filter)> = UPDS.iter().map(|u| (u.to_string(), compile_vars_p(u, &vx_).expect("upd"))).collect();
+    let projs: Vec<(String, Filter)> = PROJS.iter().map(|u| (u.to_string(), compile_vars_p(u, &vx_).expect("proj"))).collect();
     let mut combos: Vec<(String, &str, usize, Option<usize>, &str, &str)> = vec![];
     // fixed core: every xs × every update × three inits, every kind (projection rotating)
     let mut rot = 0usize;
@@ -358,10 +420,10 @@ fn fold_cases(rng: &mut Rng, id: &mut usize) {
     let mut xs_cache: HashMap<String, Result<Filter, String>> = HashMap::new();
     for (xs, init, ui, pj, kind, input) in combos {
         let input = parse_json(input);
-        let xf = xs_cache.entry(xs.clone()).or_insert_with(|| compile(&xs));
+        let xf = xs_cache.entry(xs.clone()).or_insert_with(|| compile_p(&xs));
         let Ok(xf) = xf else { continue };
-        let xo = run_out(xf, input.clone(), vec![], 50);
-        let Ok(inf) = compile(init) else { continue };
+        set_prog(&xs); let xo = run_out(xf, input.clone(), vec![], 50);
+        let Ok(inf) = compile_p(init) else { continue };
         let io = run_out(&inf, input.clone(), vec![], 50);
         if xo.stop == StopK::Fuel || io.stop == StopK::Fuel || xo.vals.len() > 6 {
             continue;
@@ -377,7 +439,7 @@ fn fold_cases(rng: &mut Rng, id: &mut usize) {
         for (i, x) in xo.vals.iter().enumerate() {
             let mut next: Vec<Val> = vec![];
             for y in &level {
-                let o = run_out(&upds[ui].1, y.clone(), vec![x.clone()], 50);
+                set_prog(&format!("update `{}` (single step)", upds[ui].0)); let o = run_out(&upds[ui].1, y.clone(), vec![x.clone()], 50);
                 utab.rows.push(format!("{i} {} {}", vx::enc_canon(y), enc_req(&o)));
                 for v in o.vals {
                     if !next.iter().any(|w| vx::enc_canon(w) == vx::enc_canon(&v)) { next.push(v); }
@@ -385,7 +447,7 @@ fn fold_cases(rng: &mut Rng, id: &mut usize) {
             }
             if let Some(pj) = pj {
                 for y in &next {
-                    let o = run_out(&projs[pj].1, y.clone(), vec![x.clone()], 50);
+                    set_prog(&format!("project `{}` (single step)", projs[pj].0)); let o = run_out(&projs[pj].1, y.clone(), vec![x.clone()], 50);
                     ptab.rows.push(format!("{i} {} {}", vx::enc_canon(y), enc_req(&o)));
                 }
             }
@@ -400,8 +462,8 @@ fn fold_cases(rng: &mut Rng, id: &mut usize) {
             (_, Some(pj)) => (format!("foreach {xs} as $x ({init}; {u}; {})", projs[pj].0), format!(" {} {}", ptab.rows.len(), ptab.rows.join(" "))),
             _ => unreachable!(),
         };
-        let Ok(p) = compile(&prog) else { println!("SKIP compile {prog}"); continue };
-        let real = run_out(&p, input.clone(), vec![], 5000);
+        let Ok(p) = compile_p(&prog) else { println!("SKIP compile {prog}"); continue };
+        set_prog(&prog); let real = run_out(&p, input.clone(), vec![], 5000);
         let req = format!("c11.fold {kind} {} {} {} {}{}", enc_req(&xo), enc_req(&io), utab.rows.len(), utab.rows.join(" "), tail);
         // collapse double spaces of empty tables
         let req = req.split(' ').filter(|t| !t.is_empty()).collect::<Vec<_>>().join(" ");
@@ -416,12 +478,12 @@ fn fold_cases(rng: &mut Rng, id: &mut usize) {
     }
     for f in adds {
         let input = parse_json(*rng.pick(INPUTS));
-        let Ok(ff) = compile(&f) else { continue };
-        let arg = run_out(&ff, input.clone(), vec![], 200);
+        let Ok(ff) = compile_p(&f) else { continue };
+        set_prog(&f.to_string()); let arg = run_out(&ff, input.clone(), vec![], 200);
         if arg.stop == StopK::Fuel { continue; }
         let prog = format!("add({f})");
-        let Ok(p) = compile(&prog) else { continue };
-        let real = run_out(&p, input.clone(), vec![], 10);
+        let Ok(p) = compile_p(&prog) else { continue };
+        set_prog(&prog); let real = run_out(&p, input.clone(), vec![], 10);
         println!("add{id}\tc11.add {}\t{}\t{prog}\t{}", enc_req(&arg), enc_ans(&real), vx::enc(&input));
         *id += 1;
     }
@@ -437,7 +499,7 @@ fn marked(p: &str) -> String {
 fn run_marked(p: &str, input: &Val, vars: &[String], vals: &[Val], max: usize) -> Result<String, String> {
     // every equation bounds its own streams; halts escape the markers and are shown as the stop
     let _ = max;
-    let f = compile_vars(&marked(p), vars).map_err(|e| format!("{e}: {p}"))?;
+    let f = compile_vars_p(&marked(p), vars).map_err(|e| format!("{e}: {p}"))?;
     let o = run_out(&f, input.clone(), vals.to_vec(), 4);
     Ok(enc_ans(&o))
 }
@@ -626,7 +688,85 @@ fn eq_cases(rng: &mut Rng) {
     println!("EQTOTAL {total}");
 }
 
+
+// ------------------------------------------------------------------ translator: defs.jq → Lean
+
+use jaq_core::load::parse::{BinaryOp, Def, Pattern, Term};
+use jaq_core::path::{Opt, Part};
+
+fn lstr(s: &str) -> String {
+    format!("\"{}\"", s.replace('\\', "\\\\").replace('"', "\\\""))
+}
+
+fn tm_args(args: &[Term<&str>]) -> String {
+    match args.split_first() {
+        None => ".nil".into(),
+        Some((a, rest)) => format!("(.cons {} {})", tm(a), tm_args(rest)),
+    }
+}
+
+/// print a parsed term as a `Jaq.C11.Tm` constructor term
+fn tm(t: &Term<&str>) -> String {
+    let other = |t: &Term<&str>| format!("(.other {})", lstr(&format!("{t:?}")));
+    match t {
+        Term::Id => ".id".into(),
+        Term::Recurse => ".dotdot".into(),
+        Term::Num(n) => format!("(.num {})", lstr(n)),
+        Term::Var(x) => format!("(.var {})", lstr(x)),
+        Term::Call(name, args) => format!("(.call {} {})", lstr(name), tm_args(args)),
+        Term::BinOp(l, op, r) => match op {
+            BinaryOp::Pipe(None) => format!("(.pipe {} {})", tm(l), tm(r)),
+            BinaryOp::Comma => format!("(.comma {} {})", tm(l), tm(r)),
+            BinaryOp::And => format!("(.and_ {} {})", tm(l), tm(r)),
+            BinaryOp::Or => format!("(.or_ {} {})", tm(l), tm(r)),
+            BinaryOp::Math(m) => format!("(.math {} {} {})", lstr(&format!("{m:?}")), tm(l), tm(r)),
+            _ => other(t),
+        },
+        Term::IfThenElse(branches, Some(els)) if branches.len() == 1 => {
+            format!("(.ite {} {} {})", tm(&branches[0].0), tm(&branches[0].1), tm(els))
+        }
+        Term::Def(defs, rest) if defs.len() == 1 => {
+            let d = &defs[0];
+            let ps: Vec<String> = d.args.iter().map(|a| lstr(a)).collect();
+            format!("(.def_ {} [{}] {} {})", lstr(d.name), ps.join(", "), tm(&d.body), tm(rest))
+        }
+        Term::Fold(kind, xs, Pattern::Var(x), args) if *kind == "reduce" && args.len() == 2 => {
+            format!("(.reduce {} {} {} {})", tm(xs), lstr(x), tm(&args[0]), tm(&args[1]))
+        }
+        Term::Path(head, path) if path.0.len() == 1 => match &path.0[0] {
+            (Part::Range(None, None), opt) => format!("(.iter {} {})", tm(head), matches!(opt, Opt::Optional)),
+            (Part::Index(i), Opt::Essential) => format!("(.index {} {})", tm(head), tm(i)),
+            _ => other(t),
+        },
+        _ => other(t),
+    }
+}
+
+const PINNED: &[(&str, usize)] = &[("select", 1), ("range", 2), ("range", 1), ("repeat", 1), ("recurse", 1), ("recurse", 0), ("recurse", 2),
+    ("while", 2), ("until", 2), ("nth", 2), ("isempty", 1), ("all", 2), ("any", 2), ("all", 1), ("any", 1), ("all", 0), ("any", 0), ("add", 1), ("add", 0)];
+
+/// `Gen/C11Defs.lean`: the pinned definitions as the real parser reads the real defs.jq files
+fn emit_defs() {
+    let all: Vec<Def<&'static str>> = jaq_core::defs().chain(jaq_std::defs()).collect();
+    println!("/- GENERATED by `jaqverif c11 defs` from jaq-core/src/defs.jq and jaq-std/src/defs.jq (real parser). -/");
+    println!("import JaqVerif.C11.Defs\n\nnamespace Jaq.C11.Gen\nopen Jaq.C11\n");
+    println!("def defs : List DefRow := [");
+    let mut rows = vec![];
+    for (name, arity) in PINNED {
+        let found: Vec<&Def<&'static str>> = all.iter().filter(|d| d.name == *name && d.args.len() == *arity).collect();
+        match found.as_slice() {
+            [d] => {
+                let ps: Vec<String> = d.args.iter().map(|a| lstr(a)).collect();
+                rows.push(format!("  ({}, [{}], {})", lstr(d.name), ps.join(", "), tm(&d.body)));
+            }
+            ds => rows.push(format!("  ({}, [], .other \"{} definitions of arity {}\")", lstr(name), ds.len(), arity)),
+        }
+    }
+    println!("{}\n]\n\nend Jaq.C11.Gen", rows.join(",\n"));
+}
+
 pub fn main(args: &[String]) {
+    start_watchdog();
     let mut rng = Rng::new(prng::seed_from_env());
     let mut id = 0usize;
     match args.first().map(|s| s.as_str()) {
@@ -634,10 +774,20 @@ pub fn main(args: &[String]) {
         Some("range") => range_cases(&mut rng, &mut id),
         Some("fold") => fold_cases(&mut rng, &mut id),
         Some("eqs") => eq_cases(&mut rng),
+        Some("defs") => emit_defs(),
         Some("run") => {
-            // replay helper: `c11 run <program> <input json>` prints the outcome
-            let f = compile(&args[1]).expect("compile");
-            let o = run_out(&f, parse_json(&args[2]), vec![], 1000);
+            // replay helper: `c11 run <program> <input json> [name=<vx tokens joined by '+'> …]`
+            // e.g.  c11 run 'limit($n; 1, 2, error("x"))' null n=I2     (VX values as in the replay file)
+            let mut names = vec![];
+            let mut vals = vec![];
+            for a in &args[3.min(args.len())..] {
+                if let Some((k, v)) = a.split_once('=') {
+                    names.push(k.to_string());
+                    vals.push(vx::dec(&v.replace('+', " ")).expect("vx value"));
+                }
+            }
+            let f = compile_vars_p(&args[1], &names).expect("compile");
+            let o = run_out(&f, parse_json(&args[2]), vals, 1000);
             println!("{}", enc_ans(&o));
         }
         _ => {
